@@ -26,6 +26,8 @@ thread_local! { static TID: Cell<u64> = const { Cell::new(0) }; }
 /// the hidden window becomes an observed `sent` inside the other caller's transaction instead of a lucky race.
 static FORCE_HANDOVER: std::sync::atomic::AtomicBool = std::sync::atomic::AtomicBool::new(false);
 static KTIDS: Mutex<Vec<i32>> = Mutex::new(Vec::new());
+/// the current case negotiated its protocol features without acknowledging bit 30 in SET_FEATURES
+static PF_FIRST: std::sync::atomic::AtomicBool = std::sync::atomic::AtomicBool::new(false);
 
 fn set_sched(tid: i32, idle: bool) {
     let p = libc::sched_param { sched_priority: 0 };
@@ -357,6 +359,8 @@ fn do_call(ep: &Ep, kind: &str, t: u64, var: u64) -> (bool, bool) {
                             avail_ring_addr: 0x3000,
                             log_addr: None,
                         }),
+                        // (SET_VRING_ENABLE is refused locally unless SET_FEATURES has acknowledged bit 30)
+                        _ if PF_FIRST.load(std::sync::atomic::Ordering::SeqCst) => fe.set_vring_num(q, 16),
                         _ => fe.set_vring_enable(q, true),
                     };
                     (r.is_ok(), r.is_ok())
@@ -459,7 +463,12 @@ pub fn run(cases: &[Value], trace: &mut Trace, _seed: u64) {
                 let mut fe = Frontend::from_stream(a, 8);
                 // negotiation (uncontrolled): PF, REPLY_ACK; NEED_REPLY iff some call is ack-bearing
                 let _ = fe.get_features();
-                let _ = fe.set_features(1 << 30);
+                // "pf_first": protocol features are negotiated before (here: without) SET_FEATURES acknowledging bit 30, the order
+                // QEMU uses -- acknowledgements are due all the same (the backend keys them on the offered bit)
+                PF_FIRST.store(case["negorder"].as_str() == Some("pf_first"), std::sync::atomic::Ordering::SeqCst);
+                if case["negorder"].as_str() != Some("pf_first") {
+                    let _ = fe.set_features(1 << 30);
+                }
                 let _ = fe.get_protocol_features();
                 let _ = fe.set_protocol_features(
                     VhostUserProtocolFeatures::REPLY_ACK
